@@ -48,8 +48,7 @@ def daqmx_plan(rec, typemap=None):
     file, so that inherited indexes stay meaningful) and one format-changing scaler.  -> {path: (buffer, type)} or None
     when the file has no such twin (interleaved segments, strings, wide types, a channel that changes type)."""
     tm = typemap or {}
-    if rec["status"] != "ok":
-        return None
+    rejected = rec["status"] != "ok"          # forbidden encodings have DAQmx twins too (a scaler that changes its type)
     tys = {}
     for s in rec["file"]:
         if s["il"]:
@@ -62,7 +61,9 @@ def daqmx_plan(rec, typemap=None):
         for e in s["listed"]:
             if e["kind"] == "full":
                 tys.setdefault(e["p"], set()).add(tm.get(e["ty"], e["ty"]))
-    if not tys or any(len(t) > 1 or not t <= DAQMX_OK for t in tys.values()):
+    if not tys or any(not t <= DAQMX_OK for t in tys.values()):
+        return None
+    if not rejected and any(len(t) > 1 for t in tys.values()):
         return None
     return {p: (b, (sorted(tys[p]) or [None])[0]) for b, p in enumerate(sorted(tys))}
 
@@ -118,6 +119,7 @@ def to_fd(rec, seed=0, typemap=None, flip_be=None, daqmx=None, manyprops=False):
             for o in objs:
                 if o["p"] in daqmx and daqmx[o["p"]][1]:
                     b, t = daqmx[o["p"]]
+                    t = o["ty"] or t          # the scaler has the type this segment gives the channel
                     o["daqmx"] = {"kind": "fc", "widths": widths,
                                   "scalers": [{"id": 0, "ty": t, "buf": b,
                                                "off": (widths[b] - enc.size_of(t)) if (h + b) % 2 else 0}]}
@@ -352,7 +354,7 @@ def replay_segments_case(case):
             n += 1
             if rec["status"] == "rejected":
                 if "exception" not in view:
-                    fails.append(({"kind": "forbidden-accepted", "mode": mode},
+                    fails.append(({"kind": "forbidden-accepted", "mode": mode, "daqmx": bool(dq)},
                                   {"case": rec, "seed": seed, "rot": case.get("rot", 0), "flip": flip,
                                    "hex": e.data.hex(), "observed": view}))
                 continue
@@ -377,3 +379,63 @@ def replay_segments_case(case):
     if nontrivial:
         keys.append(case_hash(rec))
     return {"n": n, "keys": keys, "fails": fails, "validated": 1}
+
+
+def big_interleaved_check():
+    """One interleaved segment too large for any internal batch size (two Int32 channels, 17 chunks of 65537 rows: more
+    than 2^20 values per channel, more than 8 MiB of raw data), laid out with struct / NumPy only.  Eager read, file-level
+    and channel-level chunk streams and a lazy read must all return the values that were laid out.
+    -> list of (signature, bundle)"""
+    import struct
+    import numpy as np
+    from nptdms import TdmsFile
+    n, k = 65537, 17
+    N = n * k
+    a = (np.arange(N, dtype=np.int64) * 7 + 3).astype("<i4")
+    b = (np.arange(N, dtype=np.int64) * -5 + 11).astype("<i4")
+
+    def tstr(x):
+        e_ = x.encode("utf-8")
+        return struct.pack("<I", len(e_)) + e_
+
+    def obj(path):
+        return tstr(path) + struct.pack("<IIIQ", 20, 3, 1, n) + struct.pack("<I", 0)
+    meta = struct.pack("<I", 2) + obj("/'g'/'a'") + obj("/'g'/'b'")
+    raw = np.empty((N, 2), dtype="<i4")
+    raw[:, 0], raw[:, 1] = a, b
+    rawb = raw.tobytes()
+    toc = (1 << 1) | (1 << 2) | (1 << 3) | (1 << 5)
+    data = b"TDSm" + struct.pack("<iiQQ", toc, 4713, len(meta) + len(rawb), len(meta)) + meta + rawb
+    fails = []
+
+    def bad(what, got, want):
+        diff = np.nonzero(np.asarray(got) != want)[0] if len(got) == len(want) else []
+        fails.append(({"kind": "view-mismatch", "mode": what, "fields": ["data"], "types": ["Int32"],
+                       "interleaved": True, "nsegs": 1, "big": True},
+                      {"what": what, "rows_per_chunk": n, "chunks": k, "returned": len(got), "expected": len(want),
+                       "first_wrong_index": int(diff[0]) if len(diff) else None}))
+    try:
+        f = TdmsFile.read(io.BytesIO(data))
+        for nm, want in (("a", a), ("b", b)):
+            got = f["g"][nm][:]
+            if len(got) != N or not np.array_equal(got, want):
+                bad("eager:" + nm, got, want)
+        with TdmsFile.open(io.BytesIO(data)) as fo:
+            got = fo["g"]["b"][:]
+            if len(got) != N or not np.array_equal(got, b):
+                bad("lazy:b", got, b)
+            got = np.concatenate([c[:] for c in fo["g"]["a"].data_chunks()])
+            if len(got) != N or not np.array_equal(got, a):
+                bad("channel-chunks:a", got, a)
+            got = np.concatenate([dc["g"]["b"][:] for dc in fo.data_chunks()])
+            if len(got) != N or not np.array_equal(got, b):
+                bad("file-chunks:b", got, b)
+            w = fo["g"]["a"].read_data(N - n - 5, 20)
+            if not np.array_equal(w, a[N - n - 5:N - n + 15]):
+                bad("window:a", w, a[N - n - 5:N - n + 15])
+    except Exception as ex:  # noqa
+        import traceback
+        fails.append(({"kind": "view-mismatch", "mode": "big-interleaved", "fields": ["exception"], "types": ["Int32"],
+                       "interleaved": True, "nsegs": 1, "big": True, "exception": type(ex).__name__},
+                      {"traceback": traceback.format_exc()[-1500:]}))
+    return fails
